@@ -823,16 +823,17 @@ let monitors_ok s =
             ((||) ((||) ((||) f0.bad_fifo f0.bad_none) f0.bad_read)
               f0.bad_recyc) f0.bad_over) f0.bad_null) f0.bad_len) f0.bad_lenp)
 
-type aux = { ren : (z * nat) list; sob : (z * nat) list; pact : z;
-             pkind : nat; cact : z; ccall : nat; nitems : nat }
+type aux = { ren : (z * nat) list; sob : (z * nat) list;
+             fob : (z * nat) list; pact : z; pkind : nat; cact : z;
+             ccall : nat; nitems : nat }
 
 type ast = st * aux
 
 (** val aux0 : aux **)
 
 let aux0 =
-  { ren = []; sob = []; pact = Z0; pkind = O; cact = Z0; ccall = O; nitems =
-    O }
+  { ren = []; sob = []; fob = []; pact = Z0; pkind = O; cact = Z0; ccall = O;
+    nitems = O }
 
 (** val a_init : ast **)
 
@@ -958,32 +959,38 @@ let op_eqb a b =
 (** val set_ren : aux -> (z * nat) list -> aux **)
 
 let set_ren x l =
-  { ren = l; sob = x.sob; pact = x.pact; pkind = x.pkind; cact = x.cact;
-    ccall = x.ccall; nitems = x.nitems }
+  { ren = l; sob = x.sob; fob = x.fob; pact = x.pact; pkind = x.pkind; cact =
+    x.cact; ccall = x.ccall; nitems = x.nitems }
 
 (** val set_sob : aux -> (z * nat) list -> aux **)
 
 let set_sob x l =
-  { ren = x.ren; sob = l; pact = x.pact; pkind = x.pkind; cact = x.cact;
-    ccall = x.ccall; nitems = x.nitems }
+  { ren = x.ren; sob = l; fob = x.fob; pact = x.pact; pkind = x.pkind; cact =
+    x.cact; ccall = x.ccall; nitems = x.nitems }
 
 (** val set_pact : aux -> z -> nat -> aux **)
 
 let set_pact x a k0 =
-  { ren = x.ren; sob = x.sob; pact = a; pkind = k0; cact = x.cact; ccall =
-    x.ccall; nitems = x.nitems }
+  { ren = x.ren; sob = x.sob; fob = x.fob; pact = a; pkind = k0; cact =
+    x.cact; ccall = x.ccall; nitems = x.nitems }
 
 (** val set_call : aux -> z -> nat -> aux **)
 
 let set_call x a n =
-  { ren = x.ren; sob = x.sob; pact = x.pact; pkind = x.pkind; cact = a;
-    ccall = n; nitems = O }
+  { ren = x.ren; sob = x.sob; fob = x.fob; pact = x.pact; pkind = x.pkind;
+    cact = a; ccall = n; nitems = O }
+
+(** val set_fob : aux -> (z * nat) list -> aux **)
+
+let set_fob x l =
+  { ren = x.ren; sob = x.sob; fob = l; pact = x.pact; pkind = x.pkind; cact =
+    x.cact; ccall = x.ccall; nitems = x.nitems }
 
 (** val set_items : aux -> nat -> aux **)
 
 let set_items x n =
-  { ren = x.ren; sob = x.sob; pact = x.pact; pkind = x.pkind; cact = x.cact;
-    ccall = x.ccall; nitems = n }
+  { ren = x.ren; sob = x.sob; fob = x.fob; pact = x.pact; pkind = x.pkind;
+    cact = x.cact; ccall = x.ccall; nitems = n }
 
 (** val fin :
     nat -> st -> bool -> action list -> (st -> bool) -> (st -> aux option) ->
@@ -1036,9 +1043,165 @@ let load_acts b s =
 let reads_done s =
   (&&) (negb (cpc_eqb s.c.cp CRead)) (negb (cpc_eqb s.c.cp CTail))
 
-(** val accept_ev : nat -> ast -> z list -> ast option **)
+(** val field_of : st -> z -> nat option **)
 
-let accept_ev b sx e =
+let field_of s = function
+| Zpos p0 ->
+  (match p0 with
+   | XI p1 ->
+     (match p1 with
+      | XI p2 ->
+        (match p2 with
+         | XI p3 ->
+           (match p3 with
+            | XI p4 ->
+              (match p4 with
+               | XH ->
+                 Some
+                   (add (S (S (S (S (S (S (S (S (S (S (S (S (S (S (S (S (S (S
+                     (S (S (S (S (S (S (S (S (S (S (S (S (S (S (S (S (S (S (S
+                     (S (S (S (S (S (S (S (S (S (S (S (S (S (S (S (S (S (S (S
+                     (S (S (S (S (S (S (S (S (S (S (S (S (S (S (S (S (S (S (S
+                     (S (S (S (S (S (S (S (S (S (S (S (S (S (S (S (S (S (S (S
+                     (S (S (S (S (S (S
+                     O))))))))))))))))))))))))))))))))))))))))))))))))))))))))))))))))))))))))))))))))))))))))))))))))))))
+                     s.m.hblk)
+               | _ -> None)
+            | XO p4 ->
+              (match p4 with
+               | XH -> Some (S (S (S (S (S O)))))
+               | _ -> None)
+            | XH -> None)
+         | XO p3 ->
+           (match p3 with
+            | XI p4 ->
+              (match p4 with
+               | XO p5 -> (match p5 with
+                           | XH -> Some (S (S O))
+                           | _ -> None)
+               | _ -> None)
+            | _ -> None)
+         | XH -> None)
+      | XO p2 ->
+        (match p2 with
+         | XI p3 ->
+           (match p3 with
+            | XI p4 ->
+              (match p4 with
+               | XI p5 -> (match p5 with
+                           | XH -> Some (S O)
+                           | _ -> None)
+               | _ -> None)
+            | XO p4 ->
+              (match p4 with
+               | XH -> Some (S (S (S (S (S O)))))
+               | _ -> None)
+            | XH -> None)
+         | XO p3 ->
+           (match p3 with
+            | XI p4 ->
+              (match p4 with
+               | XI _ -> None
+               | XO p5 ->
+                 (match p5 with
+                  | XH ->
+                    Some
+                      (add (S (S (S (S (S (S (S (S (S (S (S (S (S (S (S (S (S
+                        (S (S (S (S (S (S (S (S (S (S (S (S (S (S (S (S (S (S
+                        (S (S (S (S (S (S (S (S (S (S (S (S (S (S (S (S (S (S
+                        (S (S (S (S (S (S (S (S (S (S (S (S (S (S (S (S (S (S
+                        (S (S (S (S (S (S (S (S (S (S (S (S (S (S (S (S (S (S
+                        (S (S (S (S (S (S (S (S (S (S (S
+                        O))))))))))))))))))))))))))))))))))))))))))))))))))))))))))))))))))))))))))))))))))))))))))))))))))))
+                        s.m.hblk)
+                  | _ -> None)
+               | XH -> Some (S (S (S O))))
+            | XO p4 ->
+              (match p4 with
+               | XO p5 -> (match p5 with
+                           | XH -> Some (S (S O))
+                           | _ -> None)
+               | _ -> None)
+            | XH -> None)
+         | XH -> None)
+      | XH -> None)
+   | XO p1 ->
+     (match p1 with
+      | XI p2 ->
+        (match p2 with
+         | XI p3 ->
+           (match p3 with
+            | XI p4 -> (match p4 with
+                        | XH -> Some (S O)
+                        | _ -> None)
+            | XO p4 ->
+              (match p4 with
+               | XH -> Some (S (S (S (S (S (S O))))))
+               | _ -> None)
+            | XH -> None)
+         | XO p3 ->
+           (match p3 with
+            | XI p4 ->
+              (match p4 with
+               | XI _ -> None
+               | XO p5 ->
+                 (match p5 with
+                  | XH -> Some (S (S (S (S O))))
+                  | _ -> None)
+               | XH -> Some (S O))
+            | XO p4 ->
+              (match p4 with
+               | XI p5 -> (match p5 with
+                           | XH -> Some (S O)
+                           | _ -> None)
+               | _ -> None)
+            | XH -> None)
+         | XH -> None)
+      | XO p2 ->
+        (match p2 with
+         | XI p3 ->
+           (match p3 with
+            | XI p4 ->
+              (match p4 with
+               | XI p5 -> (match p5 with
+                           | XH -> Some (S (S O))
+                           | _ -> None)
+               | _ -> None)
+            | _ -> None)
+         | XO p3 ->
+           (match p3 with
+            | XI p4 ->
+              (match p4 with
+               | XI _ -> None
+               | XO p5 -> (match p5 with
+                           | XH -> Some (S O)
+                           | _ -> None)
+               | XH ->
+                 Some
+                   (add (S (S (S (S (S (S (S (S (S (S (S (S (S (S (S (S (S (S
+                     (S (S (S (S (S (S (S (S (S (S (S (S (S (S (S (S (S (S (S
+                     (S (S (S (S (S (S (S (S (S (S (S (S (S (S (S (S (S (S (S
+                     (S (S (S (S (S (S (S (S (S (S (S (S (S (S (S (S (S (S (S
+                     (S (S (S (S (S (S (S (S (S (S (S (S (S (S (S (S (S (S (S
+                     (S (S (S (S (S (S
+                     O))))))))))))))))))))))))))))))))))))))))))))))))))))))))))))))))))))))))))))))))))))))))))))))))))))
+                     s.m.tblk))
+            | XO p4 ->
+              (match p4 with
+               | XO p5 ->
+                 (match p5 with
+                  | XH -> Some (S (S (S (S O))))
+                  | _ -> None)
+               | _ -> None)
+            | XH -> None)
+         | XH -> None)
+      | XH -> None)
+   | XH -> None)
+| _ -> None
+
+(** val accept_core : nat -> ast -> z list -> ast option **)
+
+let accept_core b sx e =
   let (s, x) = sx in
   let m0 = s.m in
   let p0 = s.p in
@@ -1414,6 +1577,34 @@ let accept_ev b sx e =
                          (set_pact x a (S O))))
                   | _ -> None)
                | _ :: _ -> None)))))
+
+(** val accept_ev : nat -> ast -> z list -> ast option **)
+
+let accept_ev b sx e =
+  match accept_core b sx e with
+  | Some a ->
+    let (s', x') = a in
+    (match e with
+     | [] -> Some (s', x')
+     | code :: l ->
+       (match l with
+        | [] -> Some (s', x')
+        | _ :: l0 ->
+          (match l0 with
+           | [] -> Some (s', x')
+           | o :: l1 ->
+             (match l1 with
+              | [] -> Some (s', x')
+              | _ :: l2 ->
+                (match l2 with
+                 | [] ->
+                   (match field_of (fst sx) code with
+                    | Some fld ->
+                      option_map (fun l3 -> (s', (set_fob x' l3)))
+                        (bind x'.fob o fld)
+                    | None -> Some (s', x'))
+                 | _ :: _ -> Some (s', x'))))))
+  | None -> None
 
 (** val a_final : ast -> bool **)
 
